@@ -4,6 +4,7 @@ pub mod env;
 pub mod json;
 pub mod labels;
 pub mod refimpl;
+#[cfg(any(feature = "c06", feature = "c13", feature = "c14"))]
 pub mod pulse;
 pub mod rng;
 pub mod synth;
